@@ -250,6 +250,9 @@ def main(argv=None) -> int:
     jobs = max(1, min(args.jobs, len(tasks)))
     results = []
     regress = []
+    import shutil
+    workdir = os.path.join(core.VERIF, ".work", f"run_{os.getpid()}")
+    os.environ["CPV_WORKDIR"] = workdir
     try:
         mp = multiprocessing.get_context("fork")
         with mp.Pool(processes=jobs, maxtasksperchild=1) as pool:
@@ -260,7 +263,9 @@ def main(argv=None) -> int:
             regress = reg_async.get()
     except Exception:  # noqa: BLE001
         traceback.print_exc()
+        shutil.rmtree(workdir, ignore_errors=True)
         return 2
+    shutil.rmtree(workdir, ignore_errors=True)
 
     order = {p.name: i for i, p in enumerate(mod.PARTS)}
     results.sort(key=lambda r: (order.get(r["part"], 99), r["shard"]))
